@@ -1,75 +1,112 @@
 """C19 -- Scripts are isolated and relative: submodules, options, user
 arguments.
 
-Decided: EXEC-SCOPE (the script exec gets a fresh dict display as globals;
-the only other exec expands a constant template), PUSH-PATH (exec inside
-push_path; submodule returns the exports of the entry pushed for that file;
-path stack popped in finally), REL-RESOLVE (relpath/buildpath resolve against
-context.path.parent()), X-ALIAS (--x- spellings added for every name; toggle
+Decided (value-flow / control / record-shape facts, no source text):
+EXEC-SCOPE (the script exec gets a dict built for that call with exactly
+__file__ and __builtins__; the only other exec expands a constant template),
+PUSH-PATH (exec under push_path(path); the entry pushed for a script is the
+one returned and whose exports submodule() hands back; the stack is popped in
+a finally), REL-RESOLVE (relpath/buildpath resolve against the directory of
+the running script), X-ALIAS (--x- spellings added for every name; toggle
 prefixes keep the x- group; extra_args saved and re-parsed).
 Not decided: visibility probes over arbitrary nesting; argparse behaviour.
 """
 import ast
+import re
 
-from ..consteval import const_eval
+from ..consteval import UNKNOWN, const_eval, subst_eval
+from ..facts import Facts, direct, has, has_call, has_const, param_of
 from ..index import unparse, walk_no_nested
 from .. import query as Q
-from .. import rx
-from ..rules import regen
+from . import c09
+
+B = 'bfg9000.builtins.builtin:'
+
+
+def _facts(ctx):
+    f = getattr(ctx, '_facts', None)
+    if f is None:
+        f = ctx._facts = Facts(ctx.repo)
+    return f
 
 
 def exec_scope(ctx):
     R = 'EXEC-SCOPE'
-    ctx.rule(R, 'every executed script gets a fresh globals dict built at '
-             'the exec call site (no dict shared between scripts); no other '
-             'exec/eval of script-controlled text exists')
+    ctx.rule(R, 'every executed script gets a globals dict built for that '
+             'call (a dict-shaped local value, never an attribute or '
+             'parameter that outlives the call) holding only __file__ and '
+             '__builtins__; no other exec/eval of script-controlled text '
+             'exists')
     repo = ctx.repo
-    sites = []
+    F = _facts(ctx)
+    ex = F.fn('bfg9000.build:_execute_script')
+    script_execs = F.effects(ex, lambda e: e.name in ('exec', 'eval') and
+                             isinstance(e.call.func, ast.Name), depth=2)
+    ctx.ob(R, '_execute_script|executes-the-script', bool(script_execs),
+           ex.node, 'no exec of the compiled script found')
+    seen = set()
+    for e in script_execs:
+        seen.add(id(e.call))
+        g = e.call.args[1] if len(e.call.args) > 1 else Q.kwarg(
+            e.call, 'globals')
+        rec = F.flow.record(g, e.fn, e.bind) if g is not None else None
+        ctx.ob(R, 'bfg9000.build:_execute_script|exec|fresh-globals-dict',
+               rec is not None and len(e.call.args) <= 2, e.call,
+               'the script is executed with a globals object that is not a '
+               'dict built for this call: variables leak between scripts')
+        if rec is not None:
+            keys = set(rec)
+            ctx.ob(R, 'bfg9000.build:_execute_script|exec|globals-content',
+                   keys == {'__file__', '__builtins__'}, e.call,
+                   'globals contain {} (expected only __file__ and '
+                   '__builtins__)'.format(sorted(map(str, keys))))
+            ctx.ob(R, 'bfg9000.build:_execute_script|exec|builtins-from-'
+                   'context', has(F.flow.rec_atoms(rec, '__builtins__'),
+                                  'context', 'builtins'), e.call,
+                   'the script\'s builtins are not the context\'s own')
     for m, c in Q.all_calls(repo):
-        if isinstance(c.func, ast.Name) and c.func.id in ('exec', 'eval'):
-            sites.append((m, c))
-    ctx.require_min(R, len(sites), 1, 'exec/eval sites')
-    for m, c in sites:
+        if not (isinstance(c.func, ast.Name) and c.func.id in ('exec',
+                                                               'eval')):
+            continue
+        if id(c) in seen:
+            continue
         fn = repo.enclosing_func(c)
         key = '{}|{}'.format(fn.fq if fn else m.name, c.func.id)
-        if fn is not None and fn.fq == 'bfg9000.build:_execute_script':
-            g = c.args[1] if len(c.args) > 1 else None
-            ok = isinstance(g, ast.Dict) and len(c.args) == 2
-            ctx.ob(R, key + '|fresh-globals-dict', ok, c,
-                   'the script is executed with a globals object that is '
-                   'not a fresh dict display: variables leak between '
-                   'scripts')
-            if isinstance(g, ast.Dict):
-                keys = [const_eval(repo, m, k) for k in g.keys
-                        if k is not None]
-                ok = set(keys) == {'__file__', '__builtins__'} and \
-                    None not in g.keys
-                ctx.ob(R, key + '|globals-content', ok, c,
-                       'globals contain {} (expected only __file__ and '
-                       '__builtins__)'.format(keys))
-                bi = [unparse(v) for k, v in zip(g.keys, g.values)
-                      if const_eval(repo, m, k) == '__builtins__']
-                ctx.ob(R, key + '|builtins-from-context',
-                       bi == ['context.builtins'], c, '')
-        elif fn is not None and fn.fq == \
-                'bfg9000.options:OptionMeta.__new__':
+        if fn is not None and fn.fq == 'bfg9000.options:OptionMeta.__new__':
             a = c.args[0] if c.args else None
+            if isinstance(a, ast.Name):
+                vs = [v for v in Q.local_assignments(fn.node, a.id)
+                      if v is not None]
+                a = vs[0] if len(vs) == 1 else a
             ok = isinstance(a, ast.Call) and Q.callee_attr(a) == 'format' \
                 and isinstance(const_eval(repo, m, a.func.value), str)
             ctx.ob(R, key + '|constant-template', ok, c,
                    'OptionMeta exec no longer expands a constant template')
         else:
             ctx.ob(R, key, False, c, 'new exec/eval site')
-    # context.builtins is bound per context object
-    bc = repo.method('bfg9000.builtins.builtin:BaseContext', '__init__')
-    ok = 'self.builtins = _allbuiltins[self.kind].bind(self, ' \
-        'python_builtins)' in unparse(bc.node)
+    bc = F.fn(B + 'BaseContext.__init__')
+    v = F.stored(bc, 'builtins')
+    ok = v is not None and has_call(v, 'bind') and param_of(v, 'self')
     ctx.ob(R, 'BaseContext.__init__|builtins-bound-to-context', ok, bc.node,
-           '')
-    bd = repo.method('bfg9000.builtins.builtin:Builtins', 'bind')
-    ok = isinstance(Q.returns(bd.node)[0].value, ast.Dict)
+           'the builtins a script sees are not bound to its own context')
+    bd = F.fn(B + 'Builtins.bind')
+    rets = F.flow._returns(bd)
+    ok = bool(rets) and all(F.flow.record(r, bd) is not None for r in rets)
     ctx.ob(R, 'Builtins.bind|fresh-dict', ok, bd.node,
            'bind() returns a shared object')
+
+
+def _in_finally_of_try_with(node, fn, body_pred):
+    """node lies in the finalbody of a try statement whose body contains a
+    node matching body_pred."""
+    n = node
+    while n is not None and n is not fn.node:
+        p = getattr(n, '_parent', None)
+        if isinstance(p, ast.Try) and any(n is s for s in p.finalbody):
+            if any(body_pred(x) for st in p.body for x in ast.walk(st)):
+                return True
+        n = p
+    return False
 
 
 def push_path(ctx):
@@ -78,53 +115,93 @@ def push_path(ctx):
              'is popped on every exit (finally); submodule returns the '
              'exports of exactly the entry pushed for that file; export '
              'writes into the innermost entry; root scripts cannot export')
-    repo = ctx.repo
-    ex = repo.func('bfg9000.build:_execute_script')
-    withs = [n for n in walk_no_nested(ex.node) if isinstance(n, ast.With)]
-    ok = len(withs) == 1 and any(
-        unparse(i.context_expr) == 'context.push_path(path)' and
-        i.optional_vars is not None and unparse(i.optional_vars) == 'p'
-        for i in withs[0].items)
-    ctx.ob(R, '_execute_script|with-push_path-as-p', ok, ex.node, '')
-    rets = Q.returns(ex.node)
-    ok = len(rets) == 1 and unparse(rets[0].value) == 'p'
+    F = _facts(ctx)
+    ex = F.fn('bfg9000.build:_execute_script')
+    execs = F.effects(ex, lambda e: e.name == 'exec' and isinstance(
+        e.call.func, ast.Name), depth=2)
+    ok = bool(execs) and all(has_call(e.withs(), 'push_path') and
+                             param_of(e.withs(), 'path') for e in execs)
+    ctx.ob(R, '_execute_script|exec-under-push_path(path)', ok, ex.node,
+           'the script does not run inside push_path(path)')
+    r = F.returns(ex)
+    ok = has_call(direct(r), 'push_path') and not any(
+        a for a in direct(r) if not a.startswith(('const:',)) and
+        'push_path(' not in a)
     ctx.ob(R, '_execute_script|returns-pushed-entry', ok, ex.node,
            'the entry returned is not the one pushed for this script')
-    pp = repo.method('bfg9000.builtins.builtin:StackContext', 'push_path')
-    tries = [n for n in walk_no_nested(pp.node) if isinstance(n, ast.Try)]
-    ok = len(tries) == 1 and any(unparse(s) == 'self.path_stack.pop()'
-                                 for s in tries[0].finalbody) and any(
-        isinstance(s, ast.Expr) and isinstance(s.value, ast.Yield) and
-        unparse(s.value.value) == 'self.path_stack[-1]'
-        for s in tries[0].body)
+    pp = F.fn(B + 'StackContext.push_path')
+    ys = [n for n in walk_no_nested(pp.node) if isinstance(n, ast.Yield)]
+    pushed = set()
+    for e in F.effects(pp, lambda e: e.name == 'append', depth=0):
+        if has(e.recv(), 'self', 'path_stack'):
+            pushed |= {a for a in direct(e.arg(0)) if 'PathEntry(' in a}
+    ok = bool(ys) and all(
+        y.value is not None and (has(F.atoms(y.value, pp), 'self',
+                                     'path_stack[-1]') or
+                                 direct(F.atoms(y.value, pp)) & pushed)
+        for y in ys)
+    pops = [e for e in F.effects(pp, lambda e: e.name == 'pop', depth=0)
+            if has(e.recv(), 'self', 'path_stack')]
+    ok = ok and bool(pops) and all(
+        _in_finally_of_try_with(e.call, pp, lambda x: isinstance(
+            x, ast.Yield)) for e in pops) and all(
+        not e.call.args for e in pops)
     ctx.ob(R, 'push_path|yield-top-pop-in-finally', ok, pp.node,
-           'the path stack is not restored when a script raises')
-    ok = 'self.path_stack.append(self.PathEntry(path))' in unparse(pp.node)
+           'the path stack is not restored when a script raises (or the '
+           'entry handed to the script is not the top of the stack)')
+    aps = [e for e in F.effects(pp, lambda e: e.name == 'append', depth=0)
+           if has(e.recv(), 'self', 'path_stack')]
+    ok = bool(aps) and all(has_call(e.arg(0), 'PathEntry') and param_of(
+        e.arg(0), 'path') for e in aps) and all(
+        F.before(pp, lambda e: e.name == 'append' and has(
+            e.recv(), 'self', 'path_stack'), y) for y in ys)
     ctx.ob(R, 'push_path|fresh-entry', ok, pp.node,
            'a new entry (with empty exports) is not pushed per script')
-    pe = repo.cls('bfg9000.builtins.builtin:StackContext.PathEntry')
-    ok = 'self.exports = {}' in unparse(pe.node)
-    ctx.ob(R, 'PathEntry|fresh-exports', ok, pe.node, '')
-    sm = repo.func('bfg9000.builtins.core:submodule')
-    rets = Q.returns(sm.node)
-    ok = len(rets) == 1 and unparse(rets[0].value) == \
-        'build.execute_file(context, path, run_hooks=False).exports'
-    ctx.ob(R, 'submodule|returns-exports-of-executed-file', ok, sm.node, '')
-    vals = [unparse(v) for v in Q.local_assignments(sm.node, 'path')
-            if v is not None]
-    ok = vals == ["context['relpath'](path).append(context.filename)"]
+    pe = F.fn(B + 'StackContext.PathEntry.__init__')
+    v = F.stored(pe, 'exports')
+    ok = v is not None and any(a.startswith('alloc:') for a in v) and \
+        not any(a.startswith('param:') for a in v)
+    ctx.ob(R, 'PathEntry|fresh-exports', ok, pe.node,
+           'entries share an exports dict')
+    v = F.stored(pe, 'path')
+    ctx.ob(R, 'PathEntry|path', v is not None and param_of(v, 'path'),
+           pe.node, '')
+    sm = F.fn('bfg9000.builtins.core:submodule')
+    r = F.returns(sm)
+    ok = has(r, 'execute_file()', 'exports') or any(
+        re.search(r'execute_file\(.*\)\.exports$', a) for a in r) or (
+            has_call(r, 'push_path') and has(r, 'exports'))
+    ctx.ob(R, 'submodule|returns-exports-of-executed-file', ok, sm.node,
+           'submodule() does not return the exports of the entry pushed '
+           'for the file it executed')
+    efs = F.calls_to(sm, 'execute_file', depth=1)
+    ok = bool(efs) and all(
+        has(e.arg(1), "['relpath']") and has(e.arg(1), 'filename') and
+        param_of(e.arg(1), 'path') and param_of(e.arg(0), 'context')
+        for e in efs)
     ctx.ob(R, 'submodule|path-relative-to-caller', ok, sm.node,
-           'submodule path is resolved as {}'.format(vals))
-    exf = repo.func('bfg9000.builtins.core:export')
-    ok = 'context.exports.update(kwargs)' in unparse(exf.node)
-    ctx.ob(R, 'export|innermost-entry', ok, exf.node, '')
-    ep = repo.method('bfg9000.builtins.builtin:StackContext', 'exports')
-    ok = 'len(self.path_stack) == 1' in unparse(ep.node) and \
-        'return self.path_stack[-1].exports' in unparse(ep.node)
-    ctx.ob(R, 'StackContext.exports|top-of-stack', ok, ep.node, '')
-    p = repo.method('bfg9000.builtins.builtin:StackContext', 'path')
-    ok = 'return self.path_stack[-1].path' in unparse(p.node)
-    ctx.ob(R, 'StackContext.path|top-of-stack', ok, p.node, '')
+           'the submodule file is not <relpath(path)>/<context.filename>')
+    exf = F.fn('bfg9000.builtins.core:export')
+    ok = any(has(e.recv(), 'context.exports') and param_of(
+        e.all_args(), 'kwargs')
+        for e in F.effects(exf, lambda e: e.name == 'update', depth=0))
+    ctx.ob(R, 'export|innermost-entry', ok, exf.node,
+           'export() does not write into the current entry\'s exports')
+    ep = F.fn(B + 'StackContext.exports')
+    r = F.returns(ep)
+    ok = has(r, 'self', 'path_stack[-1]', 'exports')
+    rs = [n for n in walk_no_nested(ep.node) if isinstance(n, ast.Raise)]
+    ok = ok and bool(rs) and any(
+        op == 'Eq' and (has(l, 'path_stack') and has_const(r_, 1) or
+                        has(r_, 'path_stack') and has_const(l, 1))
+        for n in rs for op, l, r_ in F.guard_compares(n, ep))
+    ctx.ob(R, 'StackContext.exports|top-of-stack', ok, ep.node,
+           'exports is not the innermost entry\'s (or root scripts may '
+           'export)')
+    p = F.fn(B + 'StackContext.path')
+    ok = has(F.returns(p), 'self', 'path_stack[-1]', 'path')
+    ctx.ob(R, 'StackContext.path|top-of-stack', ok, p.node,
+           'the current path is not the innermost entry\'s')
 
 
 def rel_resolve(ctx):
@@ -132,26 +209,79 @@ def rel_resolve(ctx):
     ctx.rule(R, 'input paths resolve against the directory of the running '
              'script, output paths against the matching build '
              'subdirectory')
-    repo = ctx.repo
+    F = _facts(ctx)
     P = 'bfg9000.builtins.path:'
-    rp = repo.func(P + 'relpath')
-    rets = Q.returns(rp.node)
-    ok = len(rets) == 1 and unparse(rets[0].value) == \
-        '_path.Path.ensure(path, context.path.parent(), strict=strict)'
-    ctx.ob(R, 'relpath|against-script-directory', ok, rp.node, '')
-    bp = repo.func(P + 'buildpath')
-    vals = [unparse(v) for v in Q.local_assignments(bp.node, 'base')
-            if v is not None]
-    ok = vals == ['context.path.parent().reroot()'] and \
-        '_path.Path.ensure(path, base, strict=strict)' in unparse(bp.node)
-    ctx.ob(R, 'buildpath|against-matching-build-directory', ok, bp.node, '')
-    rn = repo.func(P + 'relname')
-    ok = "context['relpath'](i).suffix" in unparse(rn.node)
-    ctx.ob(R, 'relname|suffix-of-relpath', ok, rn.node, '')
-    pd = repo.func('bfg9000.build:_execute_script')
-    ok = 'pushd(path.parent().string(context.env.base_dirs))' in unparse(
-        pd.node)
-    ctx.ob(R, '_execute_script|cwd-is-script-directory', ok, pd.node, '')
+    rp = F.fn(P + 'relpath')
+    es = F.calls_to(rp, 'ensure', depth=1)
+    ok = bool(es) and all(
+        param_of(e.arg(0), 'path') and has(e.arg(1), 'context', 'path',
+                                           'parent()') and
+        not has(e.arg(1), 'reroot()') and
+        param_of(e.arg(2, kw='strict'), 'strict') for e in es) and \
+        has_call(F.returns(rp), 'ensure')
+    ctx.ob(R, 'relpath|against-script-directory', ok, rp.node,
+           'input paths are not resolved against the directory of the '
+           'running script')
+    bp = F.fn(P + 'buildpath')
+    es = F.calls_to(bp, 'ensure', depth=1)
+    ok = bool(es) and all(
+        param_of(e.arg(0), 'path') and has(
+            e.arg(1), 'context', 'path', 'parent()', 'reroot()') and
+        param_of(e.arg(2, kw='strict'), 'strict') for e in es) and \
+        has_call(F.returns(bp), 'ensure')
+    ctx.ob(R, 'buildpath|against-matching-build-directory', ok, bp.node,
+           'output paths are not resolved against the build directory '
+           'matching the running script')
+    rn = F.fn(P + 'relname')
+    ok = has(F.returns(rn), "['relpath']", 'suffix')
+    ctx.ob(R, 'relname|suffix-of-relpath', ok, rn.node,
+           'relative names are not the suffix of the script-relative path')
+    ex = F.fn('bfg9000.build:_execute_script')
+    execs = F.effects(ex, lambda e: e.name == 'exec' and isinstance(
+        e.call.func, ast.Name), depth=2)
+    ok = bool(execs) and all(
+        has_call(e.withs(), 'pushd') and has(e.withs(), 'path', 'parent()',
+                                             'string()') for e in execs)
+    ctx.ob(R, '_execute_script|cwd-is-script-directory', ok, ex.node,
+           'the script does not run with its own directory as cwd')
+    rel = [e for e in F.effects(ex, lambda e: e.name in (
+        'relpath', 'abspath', 'getcwd', 'realpath'), depth=1)
+        if any(h.startswith('os.') for h in e.heads()) and
+        e.fn.module is ex.module]
+    ok = all(has_call(e.withs(), 'pushd') for e in rel)
+    ctx.ob(R, '_execute_script|cwd-relative-values-computed-inside-pushd',
+           ok, ex.node, 'a value that depends on the current directory '
+           '(os.path.relpath for __file__) is computed before the '
+           'directory of the script is entered: it is relative to the '
+           'including script')
+
+
+def _sub_semantics(ctx, F, pf):
+    """Evaluate the constant regular expression and replacement template of
+    ToggleAction._prefix on the two spellings (constant folding of the
+    repository's literals; nothing of the repository is executed)."""
+    subs = F.effects(pf, lambda e: e.name == 'sub', depth=1)
+    if len(subs) != 1:
+        return False
+    c = subs[0].call
+    if len(c.args) < 3:
+        return False
+    pat = const_eval(ctx.repo, pf.module, Q.inline(pf.node, c.args[0])
+                     if isinstance(c.args[0], ast.Name) else c.args[0])
+    pname = Q.params(pf.node)[-1]
+    repl = subst_eval(ctx.repo, pf.module, Q.inline(pf.node, c.args[1])
+                      if isinstance(c.args[1], ast.Name) else c.args[1],
+                      {pname: 'P-'})
+    if hasattr(pat, 'pattern'):
+        pat = pat.pattern
+    if not isinstance(pat, str) or not isinstance(repl, str):
+        return False
+    try:
+        return re.sub(pat, repl, '--foo') == '--P-foo' and \
+            re.sub(pat, repl, '--x-foo') == '--x-P-foo' and \
+            re.sub(pat, repl, '--a--x-b') == '--P-a--x-b'
+    except re.error:
+        return False
 
 
 def x_alias(ctx):
@@ -161,66 +291,109 @@ def x_alias(ctx):
              'optional x- group; extra args are saved and re-parsed on '
              'regeneration')
     repo = ctx.repo
-    au = repo.func('bfg9000.arguments.parser:add_user_argument')
-    t = unparse(au.node)
-    ok = "names += tuple(('--x-' + i[2:] for i in names))" in t
+    F = _facts(ctx)
+    A = 'bfg9000.arguments.parser:'
+    au = F.fn(A + 'add_user_argument')
+    adds = F.calls_to(au, 'add_argument', depth=1)
+    a = set()
+    for e in adds:
+        a |= e.all_args()
+    ok = bool(adds) and has_const(a, '--x-') and param_of(a, 'names') and \
+        not has_call(a, 'if') and has_call(F.returns(au), 'add_argument')
     ctx.ob(R, 'add_user_argument|x-spelling-for-every-name', ok, au.node,
            'the --x- alias is not added for every name')
-    ok = "if parser.usage == 'parse':" in t
-    ctx.ob(R, 'add_user_argument|only-when-parsing', ok, au.node, '')
-    ok = "i.startswith('--x-')" in t and 'raise ValueError' in t
-    ctx.ob(R, 'add_user_argument|x-prefix-reserved', ok, au.node, '')
-    pf = repo.method('bfg9000.arguments.parser:ToggleAction', '_prefix')
-    subs = [c for c in Q.calls(pf.node) if Q.callee_attr(c) == 'sub']
-    ok = False
-    if len(subs) == 1:
-        pat = const_eval(repo, pf.module, subs[0].args[0])
-        if isinstance(pat, str):
-            import re._constants as sc
-            p = list(rx.parse(pat))
-            # ^-- followed by optional group x-
-            ok = pat == '(^--(x-)?)'
-            repl = unparse(subs[0].args[1])
-            ok = ok and repl == "'\\\\1' + prefix"
-    ctx.ob(R, 'ToggleAction._prefix|optional-x-group-kept', ok, pf.node,
+    xs = [n for n in ast.walk(au.node)
+          if isinstance(n, ast.Constant) and n.value == '--x-']
+    every = False
+    for n in xs:
+        p = getattr(n, '_parent', None)
+        if isinstance(p, (ast.BinOp, ast.JoinedStr, ast.Call)) and \
+                not (isinstance(p, ast.Call) and Q.callee_attr(p) ==
+                     'startswith'):
+            at = F.atoms(p, au)
+            if has(direct(at), 'names') and not any(
+                    a.startswith('names[') for a in at):
+                every = True
+    ctx.ob(R, 'add_user_argument|x-spelling-derived-from-each-name', every,
+           au.node, 'the --x- alias is built from one selected name, not '
+           'from each of them')
+    ok = any(any(op == 'Eq' and (has(l, 'usage') and has_const(r, 'parse')
+                                 or has(r, 'usage') and has_const(l, 'parse'))
+                 for op, l, r in F.guard_compares(n, au)) for n in xs)
+    ctx.ob(R, 'add_user_argument|only-when-parsing', ok, au.node,
+           'aliases are added while generating help, too (or never)')
+    ok = any(has_const(F.control(n, au), '--x-')
+             for n in walk_no_nested(au.node) if isinstance(n, ast.Raise))
+    ctx.ob(R, 'add_user_argument|x-prefix-reserved', ok, au.node,
+           'a project may define an argument in the reserved --x- '
+           'namespace')
+    pf = F.fn(A + 'ToggleAction._prefix')
+    ctx.ob(R, 'ToggleAction._prefix|optional-x-group-kept',
+           _sub_semantics(ctx, F, pf), pf.node,
            'enable-/with- prefixes are not inserted after an optional x- '
            'group')
-    ti = repo.method('bfg9000.arguments.parser:ToggleAction', '__init__')
-    t = unparse(ti.node)
-    ok = 'self._prefix(i, self._true_prefix) for i in option_strings' in t \
-        and 'self._prefix(i, self._false_prefix) for i in option_strings' \
-        in t and 'option_strings = self.true_strings + self.false_strings' \
-        in t
+    ti = F.fn(A + 'ToggleAction.__init__')
+    t = F.stored(ti, 'true_strings') or set()
+    f = F.stored(ti, 'false_strings') or set()
+    ok = has_call(t, '_prefix') and has(t, '_true_prefix') and param_of(
+        t, 'option_strings') and not has(t, '_false_prefix') and \
+        has_call(f, '_prefix') and has(f, '_false_prefix') and param_of(
+            f, 'option_strings') and not has(f, '_true_prefix')
+    sup = [e for e in F.effects(ti, lambda e: e.name == '__init__', depth=0)]
+    ok = ok and bool(sup) and all(
+        has(e.arg(0), 'true_strings') and has(e.arg(0), 'false_strings')
+        for e in sup)
     ctx.ob(R, 'ToggleAction.__init__|both-spellings-both-polarities', ok,
-           ti.node, '')
-    tc = repo.method('bfg9000.arguments.parser:ToggleAction', '__call__')
-    ok = 'value = option_string in self.true_strings' in unparse(tc.node)
+           ti.node, 'the action does not register the positive and the '
+           'negative spelling of every option string')
+    tc = F.fn(A + 'ToggleAction.__call__')
+    st = [v for t_, v, n in F.stores(tc) if has(t_, 'namespace')] + [
+        e.arg(2) for e in F.effects(tc, lambda e: e.name == 'setattr',
+                                    depth=0)
+        if param_of(e.arg(0), 'namespace')]
+    ok = bool(st) and all(param_of(v, 'option_string') and has(
+        v, 'self', 'true_strings') and not has(v, 'false_strings')
+        for v in st)
     ctx.ob(R, 'ToggleAction.__call__|polarity-from-spelling', ok, tc.node,
-           '')
-    ar = repo.func('bfg9000.builtins.user_arguments:argument')
-    ok = "names = ['--' + i for i in args]" in unparse(ar.node) and \
-        'add_user_argument(context.parser, *names, **kwargs)' in unparse(
-            ar.node)
-    ctx.ob(R, 'argument|goes-through-add_user_argument', ok, ar.node, '')
-    eo = repo.func('bfg9000.build:_execute_options')
-    ok = 'group.usage = usage' in unparse(eo.node)
-    ctx.ob(R, '_execute_options|usage-set-on-group', ok, eo.node, '')
-    cb = repo.func('bfg9000.build:configure_build')
-    ok = 'parser.parse_args(env.extra_args)' in unparse(cb.node)
+           'the stored value is not "the spelling used is a positive one"')
+    ar = F.fn('bfg9000.builtins.user_arguments:argument')
+    es = F.calls_to(ar, 'add_user_argument', depth=1)
+    ok = bool(es) and all(
+        has(e.arg(0), 'context', 'parser') and has_const(
+            e.all_args(), '--') and param_of(e.all_args(), 'args')
+        for e in es)
+    ctx.ob(R, 'argument|goes-through-add_user_argument', ok, ar.node,
+           'argument() does not define --<name> through add_user_argument')
+    eo = F.fn('bfg9000.build:_execute_options')
+    ok = any(has(t_, 'usage') and param_of(v, 'usage')
+             for t_, v, n in F.stores(eo))
+    ctx.ob(R, '_execute_options|usage-set-on-group', ok, eo.node,
+           'the parse/help mode is not passed to the argument group')
+    cb = F.fn('bfg9000.build:configure_build')
+    ok = any(has(e.arg(0), 'extra_args')
+             for e in F.calls_to(cb, 'parse_args', depth=1))
     ctx.ob(R, 'configure_build|re-parses-saved-args', ok, cb.node,
            'project arguments are not re-parsed from the saved '
            'configuration')
-    sv = repo.method('bfg9000.environment:Environment', 'save')
-    ld = repo.method('bfg9000.environment:Environment', 'load')
-    ok = "'extra_args': self.extra_args" in unparse(sv.node) and \
-        "'extra_args'" in unparse(ld.node)
-    ctx.ob(R, 'Environment|extra_args-saved-and-loaded', ok, sv.node, '')
-    cf = repo.func('bfg9000.driver:configure')
-    ok = 'finalize_environment(env, args, extra)' in unparse(cf.node)
-    ctx.ob(R, 'configure|extra-args-captured', ok, cf.node, '')
-    av = repo.func('bfg9000.builtins.user_arguments:argv')
-    ok = 'return context.argv' in unparse(av.node)
-    ctx.ob(R, 'argv|from-context', ok, av.node, '')
+    sv = F.fn('bfg9000.environment:Environment.save')
+    ld = F.fn('bfg9000.environment:Environment.load')
+    top = c09._dumped_record(F, sv)
+    saved = F.flow.subrecord(top, 'data') if top else None
+    restored = c09._attrs_stored(F, ld, lambda b: '__new__(' in b)
+    ok = bool(saved) and has(F.flow.rec_atoms(saved, 'extra_args'), 'self',
+                             'extra_args') and any(
+        "['extra_args']" in x for x in restored.get('extra_args', ()))
+    ctx.ob(R, 'Environment|extra_args-saved-and-loaded', ok, sv.node,
+           'project arguments are not part of the saved configuration')
+    cf = F.fn('bfg9000.driver:configure')
+    ok = any(param_of(e.all_args(), 'extra')
+             for e in F.calls_to(cf, 'finalize_environment', depth=0))
+    ctx.ob(R, 'configure|extra-args-captured', ok, cf.node,
+           'project arguments given at configure time are not captured')
+    av = F.fn('bfg9000.builtins.user_arguments:argv')
+    ok = has(F.returns(av), 'context', 'argv')
+    ctx.ob(R, 'argv|from-context', ok, av.node,
+           'argv is not the parsed project arguments of the context')
 
 
 def check(ctx):
